@@ -41,6 +41,27 @@ async fn round_trip(addr: SocketAddr, set: &CertSet, topic: &str, within: Durati
     }
 }
 
+async fn same_connection_round_trip(conn: &RawConn, topic: &str) -> Result<(), String> {
+    let tn = TopicName::try_from(topic).map_err(|e| e.to_string())?;
+    let fut = async {
+        let (mut s, f) = conn.register(Frame::RegisterSubscriber(SubscriberPayload { topic: tn.clone(), retention_policy: 0, operations: vec![] })).await.map_err(|e| format!("subscriber registration: {e}"))?;
+        if f != Some(Frame::Ok) {
+            return Err(format!("subscriber registration answered {f:?}"));
+        }
+        let (mut p, f) = conn.register(Frame::RegisterPublisher(PublisherPayload { topic: tn.clone(), retention_policy: 0, operations: vec![] })).await.map_err(|e| format!("publisher registration: {e}"))?;
+        if f != Some(Frame::Ok) {
+            return Err(format!("publisher registration answered {f:?}"));
+        }
+        loop {
+            p.send(Frame::Message(MessagePayload { headers: None, message: Bytes::from_static(b"ping") })).await.map_err(|e| format!("send: {e}"))?;
+            if let Ok(Some(_)) = net::next_frame(&mut s, Duration::from_millis(200)).await {
+                return Ok(());
+            }
+        }
+    };
+    tokio::time::timeout(Duration::from_secs(20), fut).await.map_err(|_| "no round trip within 20 s".to_string())?
+}
+
 struct Held {
     _conns: Vec<RawConn>,
     _streams: Vec<selium_protocol::BiStream>,
@@ -122,6 +143,11 @@ async fn cell(set: Arc<CertSet>, n: usize, order: String, pattern: String, celli
     if order == "stall-first" {
         register_many(addr, &set, &ta, n, &mut held, pattern == "reqrep").await.map_err(|e| fail("registration-on-stalled-topic-unanswered", class, e))?;
     }
+    // the client that floods the stalled topic must itself still be able to use another topic on
+    // the same connection (flow control is per stream)
+    if let Err(e) = same_connection_round_trip(&stall_conn, &format!("/c17ns/same{cellid}")).await {
+        return Err(fail("other-topic-blocked-on-same-connection", class, format!("topic {a} is stalled (publisher blocked after {sent} bytes, {n} registrations queued, {order}); the same client on another topic over the same connection: {e}")));
+    }
     // the other topic must still work
     match round_trip(addr, &set, &b, Duration::from_secs(20)).await {
         Ok(d) => {
@@ -177,7 +203,7 @@ pub async fn run(tier: &str, replaying: bool) -> ! {
     finish(
         rep,
         outs,
-        "every cell of: number N of further registrations on the stalled topic in {0,(1,50,)99,100,101,102,(103,)150(,250)} x order {stall first then N registrations, N registrations first then stall} x stalled pattern {pub/sub: never-reading subscriber + flooding publisher; request/reply: never-reading bound replier + flooding requestor}; per cell a fresh real server, topic A stalled by a raw subscriber that never reads plus a raw publisher flooding 64 KiB frames until a send takes longer than 1 s, N raw subscriber registrations on A (each awaits its Ok; a new QUIC connection every 50 streams), then a fresh real client opens subscriber + publisher on topic B and must round-trip a message within 20 s. non-trivial = N > 0",
+        "every cell of: number N of further registrations on the stalled topic in {0,(1,50,)99,100,101,102,(103,)150(,250)} x order {stall first then N registrations, N registrations first then stall} x stalled pattern {pub/sub: never-reading subscriber + flooding publisher; request/reply: never-reading bound replier + flooding requestor}; per cell a fresh real server, topic A stalled by a raw subscriber that never reads plus a raw publisher flooding 64 KiB frames until a send takes longer than 1 s, N raw subscriber registrations on A (each awaits its Ok; a new QUIC connection every 50 streams), then the flooding client itself must round-trip a message on another topic over the same connection, and a fresh real client opens subscriber + publisher on topic B and must round-trip a message, each within 20 s. non-trivial = N > 0",
         "fault = misbehaving participants of one topic; enumerated exhaustively over the listed N and orders",
         json!({}),
         replaying,
